@@ -64,6 +64,16 @@ CHECKS = {
          "12x12 simulation to depth 10.",
     note="Trusted: TLC; projection reads the lxml tree directly plus public readers. Quick: <=3x3 depth 3 histories, 4x4 depth 2; thorough: <=4x4 depth 3.",
     technique="TLA+ two-layer state machine, TLC exhaustive refinement check, transition-complete replay, TLC trace validation"),
+ "C15": dict(
+    category="model_checking", design_ref="DESIGN.md §4 C15",
+    text="Media.tla: image universe (generated PNG/JPEG/GIF/BMP/TIFF of several pixel sizes and every DPI class incl. absent, zero, huge, "
+         "fractional, non-square; misleading file names; path and stream; plus the library's default poster frame and EMF icon). "
+         "MC_Media enumerates every history of picture / placeholder-picture / movie-poster / OLE-icon additions across slides with saves "
+         "and re-opens in between; each is replayed and TLC validates after every step and on every saved zip: one part per distinct bytes, "
+         "distinct names, extension and content type of the actual format (magic bytes), stored bytes and picture.image.blob exact, native "
+         "size from pixels and normalised DPI (TLC arithmetic), aspect ratio kept (Fractions monitor), requested size honoured.",
+    note="Trusted: TLC; Pillow to generate images and read px/DPI for the expectation; format by magic bytes. DPI normalisation as documented (nearest integer; 72 outside 1..2048).",
+    technique="TLA+ history machine + image universe constant; TLC-enumerated histories replayed; TLC validates media projections"),
  "C16": dict(
     category="fault_enumeration", design_ref="DESIGN.md §4 C16",
     text="Same spec as C01 plus fault actions (dangling targets, missing content types/stream/package rels, non-zip, truncated, missing "
